@@ -7,6 +7,21 @@ HERE = os.path.dirname(os.path.dirname(os.path.abspath(__file__)))
 PROOF = "proof"
 # id -> (claimed?, level text, level note, technique, design section)   or (False, reason)
 CHECKS = {
+    "C01": (True,
+            'Coq proofs on the throttle_collect machine over ANY sequence of received events: delivered ++ being-collected equals, in order, the received events that are urgent, empty or passed (each exactly once, nothing else), no batch is empty, rejected/erroring events are never delivered; queue model: received ++ queued is a permutation of sent under any interleaving and tie-breaking. PARTIAL: the fs/signal/keyboard sources are not modelled (OS behaviour). The model is run on the observed receive sequence of 64 real-time scenarios (12 families, 1-4 producers, capacity 1-4096) against action::worker.',
+            'Trusted: Coq kernel, harness (real-time taps through a scripted Filterer and action handler). tokio timeout, std Instant, async-priority-channel are modelled; the model is evaluated on the observed receive instants (cases within 18 ms of a window edge are judged by the monitors only). No axioms.',
+            'Rocq/Coq proof by induction over the receive sequence + real-time relational trace validation',
+            "DESIGN.md section 5.5 and 6 C01"),
+    "C02": (True,
+            'Coq proofs: every batch without an urgent event is delivered no earlier than first-receive + throttle (monotone receive times); a window timeout delivers exactly at first + throttle on an ideal clock whatever rejected events arrive meanwhile (they never touch the set or its window); an urgent event flushes at once unfiltered; zero throttle gives one batch per event. Lower bound checked exactly on real-time observations, upper bound with slack.',
+            'Trusted: Coq kernel, harness (real-time taps through a scripted Filterer and action handler). tokio timeout, std Instant, async-priority-channel are modelled; the model is evaluated on the observed receive instants (cases within 18 ms of a window edge are judged by the monitors only). No axioms.',
+            'Rocq/Coq proof over the throttle machine + exact lower-bound / slack upper-bound monitors on real-time runs',
+            "DESIGN.md section 5.5 and 6 C02"),
+    "C15": (True,
+            'Coq proofs: filter errors are sent exactly once each in order; the error hook passes to the handler exactly the errors up to the first one it turns critical; without elevation the hook keeps running and every error is handled; elevation / critical ends main with that error; erroring events are in no batch and do not disturb the others. Run against the full Watchexec main task with scripted handler behaviours (ignore, elevate, critical, keep-reference, slow) and bursts of 80 errors over an error queue of 2.',
+            'Trusted: Coq kernel, harness (real-time taps through a scripted Filterer and action handler). tokio timeout, std Instant, async-priority-channel are modelled; the model is evaluated on the observed receive instants (cases within 18 ms of a window edge are judged by the monitors only). No axioms.',
+            'Rocq/Coq proof over the hook model + differential runs of Watchexec::main',
+            "DESIGN.md section 5.5 and 6 C15"),
     "C03": (True,
             "Coq proofs, for an arbitrary glob matcher: an ignore file never changes the verdict of a path outside its directory (component-wise, "
             "so test/ vs tests/), every deciding pattern (incl. negations) was stored for an ancestor directory of the path, nearest directory "
